@@ -51,3 +51,11 @@ pub fn vx_fmt_nonempty() -> (r: String) ensures r@.len() > 0 { String::from("x")
 
 pub assume_specification<T>[Option::<T>::replace](o: &mut Option<T>, v: T) -> (r: Option<T>)
     ensures r == *old(o), *final(o) == Some(v);
+
+// std::str::from_utf8: Ok exactly for valid UTF-8; the text is empty exactly when the bytes are
+#[verifier::external_type_specification]
+#[verifier::external_body]
+pub struct ExUtf8Error(core::str::Utf8Error);
+pub uninterp spec fn vx_is_utf8(b: Seq<u8>) -> bool;
+pub assume_specification<'a> [core::str::from_utf8] (v: &'a [u8]) -> (r: std::result::Result<&'a str, core::str::Utf8Error>)
+    ensures r is Ok <==> vx_is_utf8(v@), r is Ok ==> (r->Ok_0@.len() == 0 <==> v@.len() == 0), v@.len() == 0 ==> r is Ok;
